@@ -2,7 +2,7 @@
 (* root module of E2: evaluates the job list of one property and writes it as ndjson *)
 EXTENDS FxGenT
 CoreProps == {"C01", "C02", "C03", "C04", "C06", "C13", "C15", "C18"}
-AllJobs(p) == IF p \in CoreProps THEN JobsFor(p) ELSE JobsForT(p)
+AllJobs(p) == IF p \in CoreProps THEN JobsFor(p) ELSE IF p = "C08" THEN JobsForT("C07") ELSE JobsForT(p)
 ASSUME LET js == AllJobs(IOEnv.FX_PROP) IN
        /\ ndJsonSerialize(IOEnv.FX_JOBS, js)
        /\ PrintT(<<"jobs", IOEnv.FX_PROP, Tier, Len(js)>>)
